@@ -336,6 +336,14 @@ def check_kept(R, P, child, op, parent_fr, df=True, dt=True):
     if dt:
         R.check(abs(float(child.dt) - P.dt) <= 2 * common.ulp(P.dt), f'dt-changed:{op}', got=float(child.dt), parent=P.dt)
     R.check(not np.shares_memory(child.data, parent_fr.data), f'view-of-parent-data:{op}')
+    # annotating the derived frame (a note, another trial drift rate, ...) is the caller's business with THAT frame
+    if isinstance(getattr(child, 'metadata', None), dict) and isinstance(getattr(parent_fr, 'metadata', None), dict):
+        before = {k: repr(v) for k, v in parent_fr.metadata.items()}
+        child.add_metadata({'verif_note': op})
+        after = {k: repr(v) for k, v in parent_fr.metadata.items()}
+        R.check(before == after, f'annotating-derived-frame-changed-parent-metadata:{op}',
+                keys=sorted(set(after) ^ set(before))[:5])
+        R.count('metadata_independence_checks')
 
 
 def check_axis(R, got, want, tol, key, what, **detail):
